@@ -77,6 +77,46 @@ fn chs_show(c: &CustomCharset<'_>) -> String {
         }
     }
 }
+/// queries on a parsed charset at probe points derived from the value: id_for_glyph and sid_to_gid
+/// (`n` = None, `P` = the call panicked)  ->  IDS/S2G
+fn chs_queries(c: &CustomCharset<'_>) -> String {
+    let mut sids: Vec<u32> = vec![0, 1, 5, 100, 390, 391, 1000, 65535];
+    match c {
+        CustomCharset::Format0 { glyphs } => {
+            for g in glyphs.iter().take(3) {
+                sids.push(u32::from(g));
+            }
+        }
+        CustomCharset::Format1 { ranges } => {
+            for r in ranges.iter().take(3) {
+                sids.push(u32::from(r.first));
+                sids.push(u32::from(r.first) + u32::from(r.n_left));
+            }
+        }
+        CustomCharset::Format2 { ranges } => {
+            for r in ranges.iter().take(3) {
+                sids.push(u32::from(r.first));
+                sids.push(u32::from(r.first) + u32::from(r.n_left));
+            }
+        }
+    }
+    let gids: [u16; 9] = [0, 1, 2, 3, 4, 255, 256, 257, 65535];
+    let show = |r: std::thread::Result<Option<u16>>| match r {
+        Ok(Some(v)) => v.to_string(),
+        Ok(None) => "n".to_string(),
+        Err(_) => "P".to_string(),
+    };
+    let ids: Vec<String> = gids
+        .iter()
+        .map(|g| show(std::panic::catch_unwind(std::panic::AssertUnwindSafe(|| c.id_for_glyph(*g)))))
+        .collect();
+    let s2g: Vec<String> = sids
+        .iter()
+        .filter(|s| **s <= 65535)
+        .map(|s| show(std::panic::catch_unwind(std::panic::AssertUnwindSafe(|| c.sid_to_gid(*s as u16)))))
+        .collect();
+    format!("{}/{}", ids.join(","), s2g.join(","))
+}
 fn fds_show(f: &FDSelect<'_>) -> String {
     match f {
         FDSelect::Format0 { glyph_font_dict_indices } => {
@@ -134,6 +174,7 @@ pub fn run_set(p: &[&str]) -> String {
                     }
                 }
             }
+            out += &format!(";q={}", chs_queries(&t));
             out
         }
         "fds" => {
@@ -206,7 +247,7 @@ pub fn run_setw(p: &[&str]) -> String {
             match fresh(|b| CustomCharset::write(b, &t)) {
                 Err(e) => format!("w=err:{}", werr(&e)),
                 Ok(w) => match ReadScope::new(&w).read_dep::<CustomCharset<'_>>(n) {
-                    Ok(t2) => format!("w={};r=ok:{}", hex(&w), chs_show(&t2)),
+                    Ok(t2) => format!("w={};r=ok:{};q={}", hex(&w), chs_show(&t2), chs_queries(&t2)),
                     Err(e) => format!("w={};r=err:{}", hex(&w), perr(&e)),
                 },
             }
